@@ -115,11 +115,13 @@ def build():
     cs.append(sub)
     # ---- scalar multiplication / division of single terms
     VSF = SF
-    cs.append(Contract(OPS + "mul_term", params={"term_left": VSF, "term_right": VSF}, returns=SF, globals=G, spec_env=ENV,
-                       raises={"RuntimeError": "term_left.factor != ONE and term_right.factor != ONE"},
-                       ensures=["result.scale == term_left.scale * term_right.scale",
-                                "result.factor == ite(term_left.factor == ONE, term_right.factor, term_left.factor)"], props=["C16"]))
-    cs.append(Contract(OPS + "div_term", params={"term_left": VSF, "term_right": VSF}, returns=SF, globals=G, spec_env=ENV,
+    mul = Contract(OPS + "mul_term", params={"term_left": VSF, "term_right": VSF}, returns=SF, globals=G, spec_env=ENV,
+                   raises={"RuntimeError": "term_left.factor != ONE and term_right.factor != ONE"},
+                   ensures=["result.scale == term_left.scale * term_right.scale",
+                            "result.factor == ite(term_left.factor == ONE, term_right.factor, term_left.factor)"], props=["C16"])
+    cs.append(mul)
+    # (sibling closures are resolved through their contracts, should one be rewritten in terms of another)
+    cs.append(Contract(OPS + "div_term", params={"term_left": VSF, "term_right": VSF}, returns=SF, globals=G, spec_env=ENV, calls={"mul_term": mul},
                        requires=["term_right.scale != 0"],
                        raises={"RuntimeError": "term_right.factor != ONE"},
                        ensures=["result.scale == term_left.scale / term_right.scale", "result.factor == term_left.factor"], props=["C16"]))
